@@ -215,6 +215,9 @@ class Interp:
                         continue
                     if rhe[0] == "upd":
                         val = self.eval(rhe[4])
+                        rhs_val = val
+                        if (cur, si) in self.override:
+                            val = self.override[(cur, si)] % self.p
                         idx = []
                         comp = False
                         for a in rhe[3]:
@@ -232,6 +235,8 @@ class Interp:
                         ty = self.types.get((var[1], var[2]))
                         if ty == "signal":
                             self.sig_assign(var, tuple(idx), val, op)
+                            if op == "csig":
+                                self.trace.append(("constraint", val, rhs_val, (cur, si)))
                             old = self.store.get(vkey(var))
                             arr2 = dict(old) if isinstance(old, dict) else {}
                             arr2[tuple(idx)] = val
@@ -240,9 +245,14 @@ class Interp:
                             self.assign(var, arr, steps, si, cur)
                         continue
                     val = self.eval(rhe)
+                    rhs_val = val
                     ty = self.types.get((var[1], var[2]))
                     if ty == "signal":
+                        if (cur, si) in self.override:
+                            val = self.override[(cur, si)] % self.p
                         self.sig_assign(var, (), val, op)
+                        if op == "csig":
+                            self.trace.append(("constraint", val, rhs_val, (cur, si)))
                         self.store[vkey(var)] = val
                     elif ty in ("component", "anoncomponent"):
                         pass
@@ -251,6 +261,7 @@ class Interp:
                 elif kind == "if":
                     c = self.eval(body[2])
                     self.decisions.append(("branch", body[1][1], c != 0))
+                    self.trace.append(("branch", body[1][1], c != 0))
                     if c != 0:
                         nxt = int(body[3])
                     elif body[4] != "-":
@@ -262,7 +273,7 @@ class Interp:
                     self.trace.append(("return", self.eval(body[2])))
                     return
                 elif kind == "ceq":
-                    self.trace.append(("constraint", self.eval(body[2]), self.eval(body[3])))
+                    self.trace.append(("constraint", self.eval(body[2]), self.eval(body[3]), (cur, si)))
                 elif kind == "assert":
                     v = self.eval(body[2])
                     self.trace.append(("assert", v != 0))
